@@ -17,11 +17,8 @@ REQUIRED_THEOREMS = ['OpusProps.C02Wf.' + t for t in ('contract_is_repack_model'
                                                       'packet_pad_is_run', 'pad_contract_is_model',
                                                       'frame_packet_is_contract_output', 'wellformed_low_budget',
                                                       'encode_wellformed_multiframe', 'encode_wellformed_single', 'encode_wellformed',
-                                                      'encode_wellformed_multiframe_pad')]
+                                                      'encode_wellformed_multiframe_pad', 'encode_wellformed_low_budget')]
 UNPROVED = [
-    'low-budget path at the level of opus_encode_native: wellformed_low_budget is stated on the ToC-only packet functions '
-    'lowHdr0 / lowLens / lowRet0 / padSpec that `lowBudget` is built from, for every state in the ranges of stOk, and not re-stated as a '
-    'theorem about encodeNative under lowBudgetGate (encode_wellformed covers that path for the parse / run clauses)',
     'packet_pad_is_run keeps the frame count of the cat as a hypothesis (hn); pad_contract_is_model / wellformed_low_budget are the '
     'hypothesis-free statements for unpadded input packets (the only way the encoder calls opus_packet_pad)']
 
